@@ -1180,6 +1180,13 @@ def execute_c14(scn):
             elif not compare.close(att.pooled_covariance, S, tol):
                 violation = viol('covariance_differs_from_model', ['C14', 'covariance_differs_from_model'] + sig_tail,
                                  'maxdiff=%s got=%s want=%s' % (compare.maxdiff(att.pooled_covariance, S), compare.describe(att.pooled_covariance), compare.describe(S)))
+            elif hasattr(att, 'pooled_covariance_inv'):
+                # the pseudo-inverse the matching phase uses (cond(S) <= 1e3 here): three digits looser, relative to the size of the inverse
+                Pm = np.linalg.pinv(S)
+                itol = tol * 1e3
+                if not compare.close(att.pooled_covariance_inv, Pm, itol, itol * float(np.abs(Pm).max())):
+                    violation = viol('covariance_inverse_differs_from_model', ['C14', 'covariance_inverse_differs_from_model'] + sig_tail,
+                                     'maxdiff=%s' % compare.maxdiff(att.pooled_covariance_inv, Pm))
         if violation is None and failed_sibling is not None:
             # a NEW attack object created on the same building Container / selection function / model objects as the one whose build failed:
             # objects are independent, its profile must be that of the building set alone
